@@ -1,0 +1,49 @@
+//go:build verif
+
+package verifx
+
+import (
+	"io"
+
+	"deps.dev/util/resolve"
+	"deps.dev/util/resolve/dep"
+	"deps.dev/util/resolve/internal/attr"
+	"deps.dev/util/resolve/internal/deptest"
+	"deps.dev/util/resolve/internal/resolvetest"
+	"deps.dev/util/resolve/internal/versiontest"
+	"deps.dev/util/resolve/version"
+)
+
+// AttrSet is internal/attr.Set.
+type AttrSet = attr.Set
+
+// AttrMask is internal/attr.Mask.
+type AttrMask = attr.Mask
+
+// DepParseString is internal/deptest.ParseString.
+func DepParseString(s string) (dep.Type, error) { return deptest.ParseString(s) }
+
+// VersionParseString is internal/versiontest.ParseString.
+func VersionParseString(s string) (version.AttrSet, error) { return versiontest.ParseString(s) }
+
+// VersionParseSingle is internal/versiontest.ParseSingle.
+func VersionParseSingle(s string) (version.AttrSet, error) { return versiontest.ParseSingle(s) }
+
+// VersionString is internal/versiontest.String.
+func VersionString(a version.AttrSet) string { return versiontest.String(a) }
+
+// TestArtifact is internal/resolvetest.Artifact.
+type TestArtifact = resolvetest.Artifact
+
+// TestCase is internal/resolvetest.Test.
+type TestCase = resolvetest.Test
+
+// ParseTestData is internal/resolvetest.Parse.
+func ParseTestData(r io.Reader, sys resolve.System) (*TestArtifact, error) {
+	return resolvetest.Parse(r, sys)
+}
+
+// ParseTestFiles is internal/resolvetest.ParseFiles.
+func ParseTestFiles(sys resolve.System, files ...string) (*TestArtifact, error) {
+	return resolvetest.ParseFiles(sys, files...)
+}
